@@ -32,6 +32,9 @@ Alphabet ==
   CASE AlphaSel = "full"  -> {WZero, W(1), W(2), W(3), U32MAX, U32MAXP1, TWO63, USIZEMAXM1, USIZEMAX}
     [] AlphaSel = "small" -> {WZero, W(1), W(2), W(3), W(4)}
     [] AlphaSel = "big"   -> {WZero, W(1), U32MAX, U32MAXP1, TWO63, USIZEMAX}
+    \* offsets as ConsecutiveIndexPairs / ColumnsRegion produce them (non-decreasing, starting at 0) with a stride of
+    \* 2^31 that runs past u32::MAX, a value that breaks it, and its next multiple: 0, s, 2s, 3s, 3s+1, 4s
+    [] AlphaSel = "mono"  -> {WZero, <<0, 32768, 0, 0>>, <<0, 0, 1, 0>>, <<0, 32768, 1, 0>>, <<1, 32768, 1, 0>>, <<0, 0, 2, 0>>}
 
 \* batches for extend: every pair over a reduced alphabet, plus the empty batch
 ExtendBatches == {<<>>} \cup {<<a, b>> : a \in {WZero, W(1), U32MAXP1}, b \in {WZero, W(1), W(2), U32MAX}}
